@@ -5,7 +5,7 @@ MCStructDefs == [S2 |-> <<P("u8"), P("u16")>>, S3 |-> <<P("u32"), P("u8"), P("u1
 FieldTypes == {P(p) : p \in Prims} \cup {EnumT, K("opq"),
                SliceT("u8", "imm"), StructT("S2"), StructT("S3"), StructT("SW"), StructT("N1"),
                OptT("dipl", P("u8")), OptT("dipl", P("u32")), OptT("dipl", P("bool")), OptT("dipl", P("i64")), OptT("dipl", P("f64")),
-               OptT("dipl", StructT("S2"))}
+               OptT("dipl", StructT("S2")), OptT("dipl", SliceT("u8", "imm"))}
 CONSTANT MaxFields
 VARIABLES fields, stage
 vars == <<fields, stage>>
